@@ -24,7 +24,8 @@ claim("C13", "exploration",
       "Every vote vector for n<=6 (7 thorough) members x every parameter value <= n+1 is applied to the real election "
       "objects and compared with the voting rule; ConfirmedElection is explored state by state (joint implementation/"
       "model graph, n<=4 (5), wait<=3 (4)) with icontract postconditions on counters and verdict domain; random vote "
-      "sequences for larger n.  Exhaustive within those bounds, sampled beyond them.",
+      "sequences for larger n; single election objects re-used over lists of varying length.  Exhaustive within those "
+      "bounds, sampled beyond them.",
       TB + " Members are stubs exposing drift_state only.", "DESIGN.md 4 (C13)")
 
 claim("C05", "exploration",
@@ -133,8 +134,9 @@ claim("C19", "exploration",
       "runtime monitoring: recording probe classifier / margin function (event log of cross-validation folds at the library "
       "boundary) + protocol shadow model; bounded-exhaustive call sequences and state-graph exploration on deep copies of "
       "the real detector",
-      "Every call sequence of length 5 (7 thorough) over {update in/out of margin, label correct/incorrect/wrong columns, "
-      "two-row update} from four start states x four configurations, continued as a state graph to 11 (15) accepted calls with "
+      "Every call sequence of length 4 (6 thorough) over eight call kinds {update in/out of margin, label correct / incorrect / "
+      "renamed column / extra column / two rows at once, two-row update} from four start states x four configurations, "
+      "continued as a state graph to 11 (15) accepted calls with "
       "every refused call re-checked at every node, plus long random interleavings: after each call the full published state "
       "(drift_state, waiting flag, labels held, margin density, counters, reference statistics) is compared with the model; "
       "refused calls must raise and change nothing; reference statistics are recomputed from the logged folds, which must "
